@@ -1,8 +1,11 @@
 #!/bin/bash
 # run the property's check (and optionally extra checks) against every seeded mutant; writes seeded/RESULTS.tsv
+# usage: run_seeded.sh            all mutants
+#        run_seeded.sh ID...      only these (their rows in RESULTS.tsv are replaced)
 cd /verif
 : > seeded/RESULTS.tsv.new
-for d in seeded/C*-m*; do
+if [ $# -gt 0 ]; then LIST=$(for i in "$@"; do echo seeded/$i; done); grep -v -F -f <(printf "%s\t\n" "$@") seeded/RESULTS.tsv > seeded/RESULTS.tsv.new; else LIST=$(ls -d seeded/C*-m*); fi
+for d in $LIST; do
   id=$(basename $d); prop=${id%%-*}
   extra=$(python3 -c "import json;print(' '.join(json.load(open('$d/meta.json')).get('also_check',[])))" 2>/dev/null)
   cd /repo && git diff --quiet || { echo "repo dirty"; exit 2; }
@@ -19,4 +22,4 @@ for d in seeded/C*-m*; do
   git -C /repo checkout -- .
   echo -e "$id\t$res" >> seeded/RESULTS.tsv.new
 done
-mv seeded/RESULTS.tsv.new seeded/RESULTS.tsv
+sort seeded/RESULTS.tsv.new > seeded/RESULTS.tsv; rm -f seeded/RESULTS.tsv.new
